@@ -60,7 +60,7 @@ theorem inv5_pre {s0 s s' : SimS} {dt : Int} (h : Fr s0 s) (hn : s'.now = s.now 
   rw [hn, hl, hq, h.now, h.log, h.queue]
   exact ⟨rfl, rfl, rfl⟩
 
-theorem inv5_step {s0 s s' : SimS} {dt : Int} {pref : List SEvent} {cur : SEvent}
+theorem qinv5_step {s0 s s' : SimS} {dt : Int} {pref : List SEvent} {cur : SEvent}
     (h : s.now = s0.now + dt ∧ s.log = s0.log.push (.clock (s0.now + dt)) ∧
       s.queue = pref.foldl (heappush SEvent.lt) s0.queue)
     (hn : s'.now = s.now) (hl : s'.log = s.log) (hq : s'.queue = heappush SEvent.lt s.queue cur) :
@@ -91,7 +91,7 @@ theorem step_rel (dt : Int) (s0 : SimS) :
     | (pick_hyp h => exact ⟨h, fun _ he => by cases he⟩)
     | (pick_hyp h => exact inv4_push h rfl rfl rfl ⟨rfl, rfl⟩)
     | (pick_hyp h => exact inv5_pre h.1 rfl rfl rfl)
-    | (pick_hyp h => exact inv5_step h rfl rfl rfl)
+    | (pick_hyp h => exact qinv5_step h rfl rfl rfl)
     | (pick_hyp h => pick_hyp h4 => exact ⟨by omega, h.1, h.2.1, _, h4.2, h.2.2⟩)
     | skip
 
@@ -197,7 +197,7 @@ theorem iter_q : KeepsQ iter := by
 
 theorem init_q : ⦃fun s => ⌜QInv s⌝⦄ init ⦃post⟨fun _ => QA, fun _ => QA⟩⦄ := by
   mvcgen [init]
-  all_goals first | exact qLoop | ev_close
+  all_goals first | exact qLoop | qev_close
 
 theorem run_q (n : Nat) : KeepsQ (run n) := by
   induction n with
